@@ -67,6 +67,8 @@ def main(argv=None):
         print(f"ANALYSIS-ERROR unknown property {pid}")
         return 2
     seed = int(os.environ.get("VERIF_SEED", "0") or 0)
+    if args.repo is not None and os.path.realpath(args.repo) != os.path.realpath("/repo"):
+        os.environ["VERIF_SKIP_EVIDENCE"] = "1"         # a development run on a scratch copy: /verif/evidence keeps describing /repo
     rep = run_property(pid, args.tier, args.repo)
     extra = None
     if args.tier == "thorough" and not args.no_selftest and not args.replay:
